@@ -347,6 +347,9 @@ impl<T: El> MapWorld<T> {
 
     /// C03: never more than two backing tables (allocator's view).
     pub fn check_tables(&self) -> VResult<()> {
+        if self.leaky {
+            return Ok(()); // a forgotten iterator keeps (leaks) a table: the statement's exception
+        }
         let s = self.m.verif_stats();
         let live = alloc::live_tables();
         let allowed = if s.old.is_some() { 2 } else { 1 };
@@ -1036,7 +1039,12 @@ impl<T: El> MapWorld<T> {
         }
         for (d, at) in &dbg {
             // same elements (Debug lists them in by-reference iteration order, which may differ)
-            let mut rest: Vec<(u32, u32)> = yielded.iter().skip(*at).copied().filter(|e| e.0 != u32::MAX).collect();
+            let mut rest: Vec<(u32, u32)> = Vec::new();
+            for i in *at..yielded.len() {
+                if yielded[i].0 != u32::MAX {
+                    rest.push(yielded[i]);
+                }
+            }
             rest.sort();
             let mut shown: Vec<(u32, u32)> = d
                 .trim_start_matches('[')
@@ -1131,7 +1139,12 @@ impl<T: El> MapWorld<T> {
         }
         for (d, at) in &dbg {
             // same elements (Debug lists them in by-reference iteration order, which may differ)
-            let mut rest: Vec<(u32, u32)> = yielded.iter().skip(*at).copied().filter(|e| e.0 != u32::MAX).collect();
+            let mut rest: Vec<(u32, u32)> = Vec::new();
+            for i in *at..yielded.len() {
+                if yielded[i].0 != u32::MAX {
+                    rest.push(yielded[i]);
+                }
+            }
             rest.sort();
             let mut shown: Vec<(u32, u32)> = d
                 .trim_start_matches('[')
